@@ -378,7 +378,7 @@ def op_rotate90(st, o):
         return "skipped"
     if h.kind == "M" and o.get("inplace") and st.fields_on(h.box):
         return "skipped"  # policy P3
-    kw = {"k": k}
+    kw = {"k": getattr(np, o["knp"])(k) if o.get("knp") else k}
     if ref is not None:
         kw["reference_point"] = list(ref)
     if o.get("ref_own"):
